@@ -39,6 +39,7 @@ type GenCfg struct {
 	Share     int // permille: reuse an existing block as a child
 	Identity  int // permille: leaf is an identity-hash CID
 	Empty     int // permille: leaf is the empty raw block
+	Alias     int // permille: leaf is a raw block holding the bytes of an existing dag-cbor block (same multihash, other codec)
 }
 
 // field names include one that is a string prefix of its neighbour ("a"/"ab"):
@@ -107,6 +108,18 @@ func (g *dagGen) leaf() cidlink.Link {
 	p := rawProto()
 	if g.cfg.Empty > 0 && g.t.Chance(g.cfg.Empty) {
 		return g.store(p, basicnode.NewBytes([]byte{}), nil)
+	}
+	if g.cfg.Alias > 0 && g.t.Chance(g.cfg.Alias) {
+		var cbor []cid.Cid
+		for _, c := range g.d.Order {
+			if c.Prefix().Codec == 0x71 {
+				cbor = append(cbor, c)
+			}
+		}
+		if len(cbor) > 0 {
+			src := cbor[g.t.Draw(len(cbor))]
+			return g.store(p, basicnode.NewBytes(append([]byte(nil), g.d.Blocks[src]...)), nil)
+		}
 	}
 	if g.t.Chance(g.cfg.Identity) {
 		p = identityProto()
